@@ -37,6 +37,15 @@ CLAIMED = {
             'they need); mate_iter verified only for <=2 (thorough: 3) fetched records with symbolic flags/names (bounded '
             'stand-in) under well-formed primary records (A7); worker schedules: A6.',
             '5/C12'),
+    'C07': ('Unbounded proof on the real ejection blocks of MoleculeIterator.__iter__ (both pooling methods): the collect loop '
+            'selects a strictly increasing, in-range list of indices of ejectable molecules only, and after the k-th pop the '
+            'molecule removed and emitted is exactly the one selected (loop invariants over a symbolic buffer, all buffer sizes '
+            'and selections); Molecule.can_be_yielded has the property\'s own postcondition: when it answers True no fragment '
+            'emitted later in coordinate-sorted order can have the molecule\'s site (no late join).',
+            'A4 emission order of pysamiterators.MatePairIterator; fragment length < cache_size/2 and >= read length; assignment '
+            'radius 0; allele clustering off; conservation of fragments (inv.conservation) and the schedule-freedom lemma for '
+            'whole runs are argued in DESIGN 5/C07 from these obligations, not discharged as one VC.',
+            '5/C07, appendix B.5'),
 }
 
 NOT_YET = 'check not built yet (framework under construction; see DESIGN.md section 5)'
